@@ -678,6 +678,19 @@ func init() {
 				f.O.Requesters, f.O.PerReq = 1, 4
 			}
 		}, "resend_carried_dup")})
+	// two and more restarts with transfers of both levels open across them
+	// (PUBRELs stored by one incarnation, new records by the next): what is
+	// pending is retransmitted, in order, before anything new
+	register("C05", Family{Name: "restarts", Weight: 1, Run: flowFamily(func(f *Flow) {
+		restartTune(700)(f)
+		o := &f.O
+		o.Generations = 3 + f.W.Tape.Draw("gens5r", 2)
+		o.StopW = 1
+		if f.W.Tape.Flip("hold5r", 500) {
+			f.HoldUntilLastGen = true
+			o.StopWhenPublished = false
+		}
+	}, "second_restart_checked", "resumed_after_restart")})
 	register("C04", Family{Name: "inbound", Weight: 1, Run: flowFamily(func(f *Flow) {
 		f.O.Inbound = 1 + f.W.Tape.Draw("nin4", 8)
 		f.O.InQ = [3]int{1, 1, 6}
